@@ -384,6 +384,8 @@ ANIaddentry(int32    an_id, /* IN: annotation interface id */
 
 done:
     if (ret_value == FAIL) { /* Error condition cleanup */
+        if (ann_entry != NULL && ann_entry->ann_id != FAIL)
+            HAremove_atom(ann_entry->ann_id); /* the id must not outlive its node */
         free(ann_key);
         free(ann_entry);
         free(ann_node);
